@@ -104,7 +104,11 @@ Qed.
 (* ------------------------------------------------------------------ *)
 (* numbers                                                             *)
 Lemma fscale_pos : (0 < fscale)%Z.
-Proof. unfold fscale. apply Z.pow_pos_nonneg; lia. Qed.
+Proof. unfold fscale. rewrite Z.shiftl_mul_pow2 by lia. apply Z.mul_pos_pos; [lia|]. apply Z.pow_pos_nonneg; lia. Qed.
+Lemma fscale_pow : fscale = (2 ^ 1074)%Z.
+Proof. unfold fscale. rewrite Z.shiftl_mul_pow2 by lia. apply Z.mul_1_l. Qed.
+Lemma int_bound_pow : int_bound = (2 ^ 53)%Z.
+Proof. reflexivity. Qed.
 
 Definition isnum (t : term) : Prop :=
   match t with TInt _ | TFlt _ => True | _ => False end.
